@@ -137,6 +137,8 @@ TCRead == /\ IsEvent("cread") /\ ~Rendezvous
 (* time before the harness logs it, and delivers the reply / the close to the client's end on  *)
 (* its own: these steps are taken just before the event that shows them.                       *)
 NextIs(e) == More /\ Ev.e = e
+(* the next event shows that the listener has stopped listening *)
+ClosingNext == NextIs("lclose") \/ (More /\ Ev.e \in {"arrive", "cdial"} /\ ~Ev.ok)
 TSilent ==
     /\ More /\ UNCHANGED l
     /\ \/ ACheck \/ AAcceptErr
@@ -144,12 +146,12 @@ TSilent ==
        \/ (Rendezvous /\ \E i \in Conns : HRead(i))
        \/ CCheck2 \/ CWriteErr \/ SelectConn \/ TimerFires \/ SendAction
        \/ (Rendezvous /\ CRead)
-       \/ (~Rendezvous /\ \E i \in Strays : /\ (NextIs("lclose") \/ (Ev.e \in {"arrive", "accept"} /\ Ev.i = i))
+       \/ (~Rendezvous /\ \E i \in Strays : /\ (ClosingNext \/ (Ev.e \in {"arrive", "accept"} /\ Ev.i = i))
                                               /\ Arrive(i))
-       \/ (~Rendezvous /\ NextIs("lclose") /\ AAccept)
-       \/ (~Rendezvous /\ (NextIs("lclose") \/ NextIs("cdial") \/ (NextIs("accept") /\ Ev.i = 1)) /\ CDial)
+       \/ (~Rendezvous /\ ClosingNext /\ AAccept)
+       \/ (~Rendezvous /\ (ClosingNext \/ NextIs("cdial") \/ (NextIs("accept") /\ Ev.i = 1)) /\ CDial)
        \/ (~Rendezvous /\ NextIs("cread") /\ (ProxyReply \/ ProxyEof))
-       \/ (Blind /\ (AAccept \/ \E i \in Conns : HRead(i) \/ HReply(i)))
+       \/ (Blind /\ (AAccept \/ CDial \/ (\E i \in Strays : Arrive(i)) \/ \E i \in Conns : HRead(i) \/ HReply(i)))
        \/ (Blind /\ lopen /\ Ev.e \in {"arrive", "cdial"} /\ ~Ev.ok /\ EnvClose)
 
 TNext == TReset \/ TArrive \/ TAccept \/ TLClose \/ TW \/ TClose \/ TGot
